@@ -100,7 +100,26 @@ pub fn build_mmap(l: &Layout) -> Result<GuestMemoryMmap<()>, String> {
 /// route 0 = `from_ranges`; route 1 = a map of the last region, the others inserted one by one
 /// from the back; route 2 = built together with extra one-byte regions below and above the
 /// layout (where the address space has room), which are then removed again, lowest first.
-/// The resulting map must be indistinguishable from route 0.
+/// Every intermediate map is asked all address queries before the next update (an answer remembered
+/// by one map must not leak into the maps derived from it). The resulting map must be
+/// indistinguishable from route 0.
+/// Asks an intermediate map every query whose answer an implementation might remember, so
+/// that a map derived from it starts from "warm" state.
+fn touch_queries(m: &GuestMemoryMmap<()>) {
+    use vm_memory::{GuestMemory, GuestMemoryRegion};
+    let _ = m.last_addr();
+    let _ = m.num_regions();
+    let starts: Vec<GuestAddress> = m.iter().map(|r| r.start_addr()).collect();
+    for a in starts {
+        let _ = m.find_region(a);
+        let _ = m.to_region_addr(a);
+        let _ = m.check_range(a, 1);
+        let _ = m.get_host_address(a);
+    }
+    let _ = m.address_in_range(m.last_addr());
+    let _ = m.checked_offset(GuestAddress(0), usize::MAX);
+}
+
 pub fn build_mmap_route(l: &Layout, route: usize) -> Result<GuestMemoryMmap<()>, String> {
     if route == 0 || l.regs.is_empty() {
         return build_mmap(l);
@@ -110,6 +129,7 @@ pub fn build_mmap_route(l: &Layout, route: usize) -> Result<GuestMemoryMmap<()>,
         let (s, n) = *l.regs.last().unwrap();
         let mut m = GuestMemoryMmap::from_regions(vec![mk(s, n)?]).map_err(|e| format!("{:?}", e))?;
         for (s, n) in l.regs.iter().rev().skip(1) {
+            touch_queries(&m);
             m = m.insert_region(std::sync::Arc::new(mk(*s, *n)?)).map_err(|e| format!("{:?}", e))?;
         }
         return Ok(m);
@@ -133,6 +153,7 @@ pub fn build_mmap_route(l: &Layout, route: usize) -> Result<GuestMemoryMmap<()>,
     }
     let mut m = GuestMemoryMmap::from_regions(regions).map_err(|e| format!("{:?}", e))?;
     for e in extra {
+        touch_queries(&m);
         m = m.remove_region(GuestAddress(e), 1).map_err(|e| format!("{:?}", e))?.0;
     }
     Ok(m)
